@@ -283,6 +283,7 @@ def run_c13(job):
     dbname = job.get("db", "good")
     os.environ["PYFLYBY_PATH"] = os.path.join(root, "db_%s.py" % dbname)
     logger.set_level(job.get("loglevel", "INFO"))
+    G["c13_level"] = job.get("loglevel", "INFO")
     cap = gen_c14._capture()
     exec("import zzq_mod_23 as zzq_bound", ip.user_ns)      # a module the user has already imported
     # an object with attributes / items for cells whose assignment targets are not plain names
@@ -327,11 +328,16 @@ def run_c13(job):
         ns_before = _ns_view(ip.user_ns)
         calls_before = dict(inj.ncalls)
         n_imported_before = len(inj.imported)
-        r = dict(kind=cell["kind"], text=cell["text"])
+        r = dict(kind=cell["kind"], text=cell["text"], level_before=G.get("c13_level"))
         esc = None
         with cap:
             try:
-                if cell["kind"] == "run":
+                if cell["kind"] == "level":
+                    logger.set_level(cell["text"])       # the user changes PYFLYBY's log level mid-session
+                    G["c13_level"] = cell["text"]
+                elif cell["kind"] == "foreign":
+                    gen_c14.do_foreign(cell["text"])     # a third party registers / rebinds hooks
+                elif cell["kind"] == "run":
                     res = ip.run_cell(cell["text"], store_history=False)
                     r["result"] = repr(res.result)[:200]
                     for nm, e in (("err", res.error_in_exec), ("err_before", res.error_before_exec)):
@@ -354,6 +360,7 @@ def run_c13(job):
         r["ns_new"] = {k: v for k, v in ns_after.items() if ns_before.get(k) != v}
         r["ns_gone"] = sorted(k for k in ns_before if k not in ns_after)
         r["gstate"] = global_state()
+        r["hlnames"] = gen_c14.hook_names()
         if pf:
             r["auto_imported"] = sorted(set(inj.imported[n_imported_before:]))
             r["importer"] = gen_c14.importer_view()
@@ -386,7 +393,7 @@ def gen_cell(rng, k, mods_dir):
         ("bad", 2), ("pinfo", 2), ("multi", 2), ("syntaxerr", 1), ("raise", 1), ("prun", 1), ("run", 2),
         ("run_plain", 1), ("debug", 1), ("complete_global", 3), ("complete_attr", 3), ("complete_attr_bound", 1),
         ("two_known", 1), ("autocall", 1), ("run_odd", 3), ("run_odd_needs", 1),
-        ("target", 8), ("import_local", 3),
+        ("target", 8), ("import_local", 3), ("probe", 1), ("probe_known", 2),
     ]
     kind = rng.choices([a for a, _ in kinds], weights=[b for _, b in kinds])[0]
     return make_cell(kind, i, k, mods_dir)
@@ -429,6 +436,14 @@ def make_cell(kind, i, k, mods_dir):
         return run('%run "' + path.replace("\\", "\\\\").replace('"', '\\"') + '"')
     if kind == "target":
         return run(TARGET_CELLS[k % len(TARGET_CELLS)].replace("@K@", str(k)).replace("@I@", str(i)))
+    if kind == "probe":
+        return run(f"('zzq_foreign_probe', {k})")
+    if kind == "probe_known":
+        return run(f"('zzq_foreign_probe', zzq_mod_{i}.VALUE)")
+    if kind.startswith("f_"):
+        return dict(kind="foreign", text=kind, ck="foreign")
+    if kind.startswith("level_"):
+        return dict(kind="level", text=kind[6:], ck="level")
     if kind == "import_local":
         return run("import zzq_localhelper\nzzq_localhelper.WHERE")
     if kind == "debug":
@@ -467,6 +482,29 @@ TARGET_CELLS = [
     "zzq_acc.sub.n = zzq_acc.total = zzq_mod_@I@.VALUE\n(zzq_acc.sub.n, zzq_acc.total)",
     "zzq_acc.lst[1:2] += [zzq_mod_@I@.VALUE]\nzzq_acc.lst",
 ]
+
+
+C13_FOREIGN = ["f_add_ast", "f_add_ast", "f_add_cleanup", "f_rebind_ast", "f_set_hook", "f_rebind_matchers", "f_rebind_post"]
+
+
+def add_session_events(rng, cells, mods_dir):
+    """third-party registrations and log-level changes during the session; returns (cells, initial log level or None)"""
+    cells = list(cells)
+    level0 = None
+    r = rng.random()
+    if r < 0.3:
+        for _ in range(rng.choice([1, 1, 2])):
+            cells.insert(rng.randint(0, max(0, len(cells) - 1)), make_cell(rng.choice(C13_FOREIGN), 0, 0, mods_dir))
+        cells.insert(rng.randint(1, len(cells)), make_cell(rng.choice(["probe", "probe_known"]), rng.randrange(20), rng.randrange(20), mods_dir))
+    elif r < 0.5:
+        sched = rng.choice([["DEBUG", "INFO"], ["DEBUG", "ERROR"], ["INFO", "DEBUG", "INFO"], ["ERROR", "DEBUG", "WARNING"]])
+        level0 = sched[0]
+        pos = 1
+        for lv in sched[1:]:
+            pos = rng.randint(pos, len(cells))
+            cells.insert(pos, make_cell("level_" + lv, 0, 0, mods_dir))
+            pos += 1
+    return cells, level0
 
 
 def gen_faults(rng, nmax=3):
